@@ -467,6 +467,19 @@ theorem C09_seek_past_end_decoder_ends {σ : Type} {W : World} (hW : W.Ok) {D : 
   refine ⟨h1, h2, h3, ?_, h4, h5, h6, h7, h8⟩
   rw [h3]; simp
 
+/-- **… the same for a `seek_by` landing at or after the end** (target `shared.position() + k`). -/
+theorem C09_seek_by_past_end_decoder_ends {σ : Type} {W : World} (hW : W.Ok) {D : Decoder σ ℝ} {pos : σ → Nat}
+    {good : σ → Prop} (C : Dec.Contract D W.frames.toList pos good) {s : Sys σ ℝ} {a m : Nat} {k : ℝ}
+    (P : SeekByEndPending W pos good s a m k) (fuel : Nat) (hfuel : W.frames.size < fuel) :
+    (Sys.run D fuel s).1 = .ok .end ∧ (Sys.run D fuel s).2.reachedEnd = true ∧
+    (Sys.run D fuel s).2.ring.items =
+      s.ring.items ++ [⟨Frame.zero, seekLands s.transport (seekIndex s.sampleRate (s.sharedPosition + k))⟩] ∧
+    (Sys.run D fuel s).2.transport.playing = false ∧
+    (Sys.run D fuel s).2.transport.position = seekLands s.transport (seekIndex s.sampleRate (s.sharedPosition + k)) ∧
+    (Sys.run D fuel s).2.cmds.seekBy = none ∧ (Sys.run D fuel s).2.core = s.core ∧
+    (Sys.run D fuel s).2.encounteredError = s.encounteredError :=
+  seekBy_end_applied hW C P fuel hfuel
+
 /-- **… and the sound stops exactly when the buffered frames are used up** (`_partial`: one output frame at a time).
     With `reached_end` set (nothing is pushed any more: a `decode` step of such a sound changes nothing), an output frame
     whose position step pops `j = ⌊frac + step⌋` ring entries leaves the ring `j` entries shorter, and the sound is marked
@@ -550,6 +563,12 @@ example : ∃ (W : World) (s : Sys Nat ℝ) (a m : Nat) (x : ℝ), W.Ok ∧
   ⟨exEndWorld, _, 0, 1, 3, exEndWorld_ok, chunkDecoder_contract _ 2 4, exSeekEnd_pending,
     (C09_seek_past_end_decoder_ends exEndWorld_ok (chunkDecoder_contract _ 2 4) exSeekEnd_pending 4
       (by simp [exEndWorld])).2.1⟩
+
+/-- hypotheses of `C09_seek_by_past_end_decoder_ends` -/
+example : ∃ (W : World) (s : Sys Nat ℝ) (a m : Nat) (k : ℝ), W.Ok ∧
+    Dec.Contract (chunkDecoder W.frames.toList 2 4) W.frames.toList (fun p => p) (fun _ => True) ∧
+    SeekByEndPending W (fun p => p) (fun _ => True) s a m k :=
+  ⟨exEndWorld, _, 0, 1, 3, exEndWorld_ok, chunkDecoder_contract _ 2 4, exSeekByEnd_pending⟩
 
 /-- hypotheses of `C09_seek_past_end_render_loop_stops`: a sound with `reached_end` set whose render loop (one frame,
     `dt = 0`) does not fault -/
